@@ -87,6 +87,12 @@ Theorem C19_fails_only_if_all_fail : forall prim fb pord ford tc,
 Proof. exact fails_only_if_all_fail. Qed.
 Print Assumptions C19_fails_only_if_all_fail.
 
+Theorem C19_bug_only_without_primaries : forall prim fb pord ford tc,
+  order_ok prim pord = true -> order_ok fb ford = true ->
+  provide prim fb pord ford tc = RBug -> prim = [].
+Proof. exact bug_only_without_primaries. Qed.
+Print Assumptions C19_bug_only_without_primaries.
+
 (* Which error: that of the LAST completing primary. *)
 Theorem C19_error_is_last_completing : forall prim fb pord ford tc i e,
   order_ok prim pord = true -> provide prim fb pord ford tc = RErr (P i) e ->
